@@ -116,6 +116,120 @@ let () = register "hist" (fun f ->
      | Panic -> "panic")
   | _ -> failwith "hist: bad case")
 
+(* ---- MSM / station decoding (C04, C05, C07) ---- *)
+let b01 b = if b then "1" else "0"
+let join_n sep (l : n list) = if l = [] then "-" else String.concat sep (List.map (fun x -> string_of_int (int_of_n x)) l)
+let dash s = if s = "" then "-" else s
+
+let header_view (h : header) : string =
+  let rows = List.map (fun r -> if r = [] then "e" else String.concat "" (List.map b01 r)) h.h_cells in
+  let rs = if rows = [] then "-" else String.concat "." rows in
+  Printf.sprintf "H:%d,%d,%d,%s,%d,%d,%d,%d,%s,%d,%s,%s,%s,%s,%s,%s,%d"
+    (int_of_n h.h_type) (int_of_n h.h_station) (int_of_n h.h_ts) (b01 h.h_multi) (int_of_n h.h_iods)
+    (int_of_n h.h_sess) (int_of_n h.h_clk) (int_of_n h.h_extclk) (b01 h.h_smooth) (int_of_n h.h_smint)
+    (hex_of_n h.h_satmask) (hex_of_n h.h_sigmask) (hex_of_n h.h_cellmask)
+    (join_n "." h.h_sats) (join_n "." h.h_sigs) rs (int_of_nat h.h_ncells)
+
+let msm_view (m : msm) : string =
+  let sats = List.map (fun s -> Printf.sprintf "%d/%d/%d/%d/%d" (int_of_n s.s_id) (int_of_n s.s_whole)
+                          (int_of_n s.s_ext) (int_of_n s.s_frac) (int_of_z s.s_rate)) m.m_sats in
+  let rows = List.map (fun r ->
+      if r = [] then "e" else
+      String.concat "," (List.map (fun c -> Printf.sprintf "%d:%d/%d/%d/%d/%s/%d/%d" (int_of_n c.g_sat) (int_of_n c.g_id)
+                                     (int_of_z c.g_rd) (int_of_z c.g_prd) (int_of_n c.g_lock) (b01 c.g_half)
+                                     (int_of_n c.g_cnr) (int_of_z c.g_rrd)) r)) m.m_sigs in
+  "msm " ^ header_view m.m_hdr ^ "|S:" ^ dash (String.concat ";" sats) ^ "|C:" ^ dash (String.concat ";" rows)
+
+let st_view (s : station) : string =
+  Printf.sprintf "st %d,%d,%d,%d,%d,%d,%d,%d,%d,%d" (int_of_n s.st_type) (int_of_n s.st_id) (int_of_n s.st_itrf)
+    (int_of_n s.st_ign1) (int_of_z s.st_x) (int_of_n s.st_ign2) (int_of_z s.st_y) (int_of_n s.st_ign3)
+    (int_of_z s.st_z) (int_of_n s.st_height)
+
+let res_view f r = match r with Ok v -> f v | Err e -> "err " ^ err_name e | Panic -> "panic"
+
+(* decode <4|7|1005|1006|auto> <hex> *)
+let () = register "decode" (fun f ->
+  match f with
+  | [_; kind; hx] ->
+    let b = bytes_of_hex hx in
+    (match kind with
+     | "4" -> res_view msm_view (decode_msm4 b)
+     | "7" -> res_view msm_view (decode_msm7 b)
+     | "1005" -> res_view st_view (decode1005 b)
+     | "1006" -> res_view st_view (decode1006 b)
+     | _ ->
+       let h = new_handler (z_of_int 1683720000000000000) in
+       (match get_message h b with
+        | Ok (None, _) -> "nil"
+        | Ok (Some m, _) ->
+          let t = int_of_z m.mtype in
+          if t < 0 then "nonrtcm"
+          else if msm4b m.mtype then res_view msm_view (decode_msm4 m.raw)
+          else if msm7b m.mtype then res_view msm_view (decode_msm7 m.raw)
+          else if t = 1005 then res_view st_view (decode1005 m.raw)
+          else if t = 1006 then res_view st_view (decode1006 m.raw)
+          else (match m.memsg with Some e -> "err " ^ err_name e | None -> "other")
+        | Err e -> "err " ^ err_name e
+        | Panic -> "panic"))
+  | _ -> failwith "decode: bad case")
+
+(* abstract messages: key=value tokens *)
+let kv (toks : string list) : (string, string) Hashtbl.t =
+  let h = Hashtbl.create 16 in
+  List.iter (fun t -> match String.index_opt t '=' with
+    | Some i -> Hashtbl.replace h (String.sub t 0 i) (String.sub t (i+1) (String.length t - i - 1))
+    | None -> ()) toks; h
+let geti h k = int_of_string (Hashtbl.find h k)
+let getn h k = n_of_int (geti h k)
+let getb h k = geti h k = 1
+let list_of s sep = if s = "-" || s = "" then [] else String.split_on_char sep s
+
+let parse_amsm (toks : string list) : amsm * int =
+  let h = kv toks in
+  let rows = List.map (fun r -> if r = "e" then [] else List.init (String.length r) (fun i -> r.[i] = '1'))
+      (list_of (Hashtbl.find h "rows") '.') in
+  let sat = List.map (fun s -> match String.split_on_char '/' s with
+      | [w; e; f; r] -> (((n_of_int (int_of_string w), n_of_int (int_of_string e)), n_of_int (int_of_string f)), z_of_int (int_of_string r))
+      | _ -> failwith "bad sat") (list_of (Hashtbl.find h "sat") ';') in
+  let sg = List.map (fun s -> match String.split_on_char '/' s with
+      | [rd; prd; lock; half; cnr; rrd] ->
+        (((((z_of_int (int_of_string rd), z_of_int (int_of_string prd)), n_of_int (int_of_string lock)), half = "1"),
+          n_of_int (int_of_string cnr)), z_of_int (int_of_string rrd))
+      | _ -> failwith "bad sig") (list_of (Hashtbl.find h "sig") ';') in
+  ({ a_k7 = getb h "k7"; a_type = getn h "type"; a_station = getn h "st"; a_ts = getn h "ts"; a_multi = getb h "mm";
+     a_iods = getn h "iods"; a_sess = getn h "sess"; a_clk = getn h "clk"; a_ext = getn h "ext";
+     a_smooth = getb h "smooth"; a_smint = getn h "smint";
+     a_sats = List.map (fun x -> n_of_int (int_of_string x)) (list_of (Hashtbl.find h "sats") '.');
+     a_sigs = List.map (fun x -> n_of_int (int_of_string x)) (list_of (Hashtbl.find h "sigs") '.');
+     a_rows = rows; a_satdata = sat; a_sigdata = sg }, geti h "pad")
+
+(* msmspec k7=.. type=.. ... pad=N  ->  wf=<0|1> bytes=<payload bytes> frame=<hex> view=<expected view> *)
+let () = register "msmspec" (fun f ->
+  match f with
+  | _ :: toks ->
+    let (m, pad) = parse_amsm toks in
+    let wf = wf_amsm m in
+    let pb = int_of_nat (payload_bytes m) in
+    if pb + pad > 1023 || pb < 1 then Printf.sprintf "wf=0 bytes=%d frame=- view=-" pb
+    else
+      Printf.sprintf "wf=%s bytes=%d frame=%s view=%s" (b01 wf) pb
+        (hex_of_bytes (msm_frame m (nat_of_int pad))) (msm_view (view m))
+  | _ -> failwith "msmspec: bad case")
+
+(* stspec type=1005 id=.. itrf=.. i1=.. x=.. i2=.. y=.. i3=.. z=.. h=.. extra=<hex>
+     -> wf=<0|1> frame=<hex> view=<expected view> *)
+let () = register "stspec" (fun f ->
+  match f with
+  | _ :: toks ->
+    let h = kv toks in
+    let gz k = z_of_int (geti h k) in
+    let s = { st_type = getn h "type"; st_id = getn h "id"; st_itrf = getn h "itrf"; st_ign1 = getn h "i1";
+              st_x = gz "x"; st_ign2 = getn h "i2"; st_y = gz "y"; st_ign3 = getn h "i3"; st_z = gz "z";
+              st_height = getn h "h" } in
+    let extra = bytes_of_hex (Hashtbl.find h "extra") in
+    Printf.sprintf "wf=%s frame=%s view=%s" (b01 (wf_station s)) (hex_of_bytes (station_frame s extra)) (st_view s)
+  | _ -> failwith "stspec: bad case")
+
 let () =
   if Array.length Sys.argv < 2 then (prerr_endline "usage: model <property> < cases"; exit 2);
   let r = try Hashtbl.find runners Sys.argv.(1) with Not_found -> (prerr_endline "model: unknown property"; exit 2) in
